@@ -20,8 +20,11 @@
                    /repo; transcribed from the published 4.6 source)
            Solidity 0.8 checked arithmetic / array bounds are modelled by [None] = revert.
    Keccak-256, ecrecover and the sortition pool's id -> operator map are Section variables.
-   Part 4  The case type, the executable property and [judge].  No proofs here. *)
-From Coq Require Import ZArith NArith List Bool.
+   Part 4  The case type, the executable property and [judge].  No proofs here.
+   Part 5  Prop readings of the input preconditions ([valid_in], [valid_claim]) and the named
+           hypotheses of the signature theorems ([ecdsa_recovers], [supporters_signed],
+           [claim_supporters_signed]). *)
+From Coq Require Import ZArith NArith List Bool Permutation.
 From KV Require Import Common.Verdict.
 Import ListNotations.
 Open Scope N_scope.
@@ -414,6 +417,11 @@ Fixpoint signing_ids (members signing : list N) : option (list N) :=
 
 (* secp256k1 group order / 2, OZ ECDSA.tryRecover: "s" must be in the lower half *)
 Definition half_n : N := 0x7FFFFFFFFFFFFFFFFFFFFFFFFFFFFFFF5D576E7357A4501DDFE92F46681B20A0.
+(* the fields of a 65-byte [R || S || V] signature as OZ ECDSA.tryRecover reads them
+   (mload(signature + 0x20), mload(signature + 0x40), byte(0, mload(signature + 0x60))) *)
+Definition sig_r (sig : bytes) : bytes := firstn 32 sig.
+Definition sig_s (sig : bytes) : bytes := firstn 32 (skipn 32 sig).
+Definition sig_v (sig : bytes) : N := nth 64 sig 0.
 
 Section Contract.
   Variable keccak : bytes -> bytes.
@@ -430,9 +438,9 @@ Section Contract.
      are 65 bytes long.) *)
   Definition oz_recover (hash sig : bytes) : option N :=
     if negb (lenN sig =? 65) then None else
-    let r := firstn 32 sig in
-    let s := firstn 32 (skipn 32 sig) in
-    let v := nth 64 sig 0 in
+    let r := sig_r sig in
+    let s := sig_s sig in
+    let v := sig_v sig in
     if half_n <? be_value s then None else
     if negb ((v =? 27) || (v =? 28)) then None else
     let a := ecrecover hash v r s in
@@ -495,6 +503,49 @@ Definition verify_claim_static (inact_threshold : N) (c : claim) (n_members : N)
 Definition contract_claim_preimage (chainid nonce : N) (pkx pky : bytes) (c : claim) : bytes :=
   abi_encode [AUint chainid; AUint nonce; ABytes (pkx ++ pky); AArr (k_inactive c);
               AUint (b2n (k_hbf c))].
+(* the signature part of verifyClaim, I:116-163.  NOTE: this loop is transcribed for the theorem
+   claim_signatures_recover only; the per-run check does not evaluate it (claim signatures are
+   canonicalised to identifiers in case terms and the driver does not recover them). *)
+Section ContractClaim.
+  Variable keccak : bytes -> bytes.
+  Variable ecrecover : bytes -> N -> bytes -> bytes -> N.
+  Variable id_operator : N -> N.
+  (* the loop I:140-160.  [seen] = senderSignatureExists.  None = revert: "Invalid signature",
+     signingMembersIndices[i] / groupMembersAddresses[memberIndex - 1] out of bounds,
+     memberIndex - 1 underflow, BytesLib.slice, ECDSA.recover *)
+  Fixpoint claim_sig_loop (n : nat) (i : N) (hash sigs : bytes) (signing addrs : list N)
+           (sender : N) (seen : bool) : option bool :=
+    match n with
+    | O => Some seen
+    | S n' =>
+        match nth_error signing (N.to_nat i), slice sigs (65 * i) 65 with
+        | Some mi, Some cur =>
+            match oz_recover ecrecover hash cur with
+            | None => None
+            | Some a =>
+                if mi =? 0 then None else
+                match nth_error addrs (N.to_nat (mi - 1)) with
+                | None => None
+                | Some e =>
+                    if e =? a
+                    then claim_sig_loop n' (i + 1) hash sigs signing addrs sender
+                                        (seen || (sender =? a))
+                    else None
+                end
+            end
+        | _, _ => None
+        end
+    end.
+  (* true = no revert, including the final require(senderSignatureExists) I:162 *)
+  Definition verify_claim_signatures (chainid nonce : N) (pkx pky : bytes) (c : claim)
+             (members : list N) (sender : N) : bool :=
+    let hash := eth_signed_hash keccak (keccak (contract_claim_preimage chainid nonce pkx pky c)) in
+    match claim_sig_loop (N.to_nat (lenN (k_sigs c) / 65)) 0 hash (k_sigs c) (k_signing c)
+                         (map id_operator members) sender false with
+    | Some true => true
+    | _ => false
+    end.
+End ContractClaim.
 (* Wallets.addWallet, W:83-86: walletID = keccak256(publicKey), X = publicKey[:32],
    Y = publicKey[32:]; validatePublicKey W:50-58: 64 bytes, X non-zero *)
 Definition wallet_x (pk : bytes) : bytes := firstn 32 pk.
@@ -761,3 +812,50 @@ Definition valid_in (p : params) (quorum : N) (i : dkg_in) : Prop :=
   /\ (forall k s, In (k, s) (i_sigs i) -> In k (i_operating i) /\ lenN s = 65)
   /\ quorum <= lenN (i_sigs i)
   /\ i_x i < two256 /\ i_y i < two256 /\ i_start i < 2 ^ 63 /\ i_chainid i < two256.
+
+(* Prop reading of [valid_claimb] (Proofs/C40.v valid_claimb_sound).  The client has NO guard
+   against an empty inactive-member list (the contract rejects it, I:174): [c_raw c <> []] is an
+   explicit precondition here. *)
+Definition valid_claim (inact_thr : N) (c : claim_in) : Prop :=
+  let n := c_nmembers c in
+  n <= 255 /\ c_raw c <> [] /\ (forall m, In m (c_raw c) -> 1 <= m <= n)
+  /\ NoDup (map fst (c_sigs c))
+  /\ (forall k s, In (k, s) (c_sigs c) -> 1 <= k <= n /\ lenN s = 65)
+  /\ c_threshold c <= lenN (c_sigs c) /\ inact_thr <= c_threshold c /\ 1 <= c_threshold c
+  /\ c_x c < two256 /\ c_y c < two256 /\ c_chainid c < two256 /\ c_nonce c < two256
+  /\ lenN (c_wallet c) = 32.
+
+(* ---- the hypotheses of the signature theorems, as named predicates.
+   [signed addr digest sig]: the 65-byte [R || S || V] signature [sig] was produced by
+   keep-common's EthereumSigner.Sign with the key whose address is [addr] over a message whose
+   prefixed hash is the 32-byte [digest] (crypto.Sign: canonical low s, V = recovery id + 27).
+   (EthereumSigner.VerifyWithPublicKey, the check other members apply, strips V before
+   verifying R || S; a signature it accepts satisfies [signed] only if its V byte is the
+   recovery id + 27.)
+   ECDSA correctness, the only cryptographic assumption: such a signature satisfies the two
+   `require`s of OZ ECDSA.recover and the ecrecover precompile returns the signer's address,
+   which is not the zero address. *)
+Definition ecdsa_recovers (ecrecover : bytes -> N -> bytes -> bytes -> N)
+           (signed : N -> bytes -> bytes -> Prop) : Prop :=
+  forall addr digest sig, signed addr digest sig -> lenN sig = 65 ->
+    be_value (sig_s sig) <= half_n /\ (sig_v sig = 27 \/ sig_v sig = 28)
+    /\ ecrecover digest (sig_v sig) (sig_r sig) (sig_s sig) = addr /\ addr <> 0.
+(* every entry (k, s) of the signatures map: s was signed by the operator of seat k (the k-th
+   member id through the sortition pool's id -> operator map) over the prefixed hash
+   (ethereumPrefixedHash) of the hash that supporter computed with
+   CalculateDKGResultSignatureHash, listing the misbehaved members in ANY order *)
+Definition supporters_signed (keccak : bytes -> bytes) (operator_of : N -> N)
+           (signed : N -> bytes -> bytes -> Prop) (i : dkg_in) : Prop :=
+  forall k s id, In (k, s) (i_sigs i) -> nth_error (i_members i) (N.to_nat (k - 1)) = Some id ->
+    exists misb' pre, Permutation misb' (i_misbehaved i)
+      /\ client_sig_preimage (i_chainid i) (i_x i) (i_y i) misb' (i_start i) = Some pre
+      /\ signed (operator_of id) (keccak (client_eth_preimage (keccak pre))) s.
+(* the same for an inactivity claim over CalculateInactivityClaimHash of the claim preimage
+   NewClaimPreimage built; [members] are the wallet's member ids *)
+Definition claim_supporters_signed (keccak : bytes -> bytes) (operator_of : N -> N)
+           (signed : N -> bytes -> bytes -> Prop) (c : claim_in) (members : list N) : Prop :=
+  forall k s id, In (k, s) (c_sigs c) -> nth_error members (N.to_nat (k - 1)) = Some id ->
+    exists pre,
+      client_claim_preimage (c_chainid c) (c_nonce c) (c_x c) (c_y c)
+                            (new_claim_inactive (c_raw c)) (c_hbf c) = Some pre
+      /\ signed (operator_of id) (keccak (client_eth_preimage (keccak pre))) s.
